@@ -1,6 +1,7 @@
 package simcheck
 
 import (
+	"simrt"
 	"bytes"
 	"fmt"
 	"strings"
@@ -59,6 +60,18 @@ func genContent(r *Rand, tag string) string {
 
 func c04Gen(r *Rand, tier string) interface{} {
 	in := &c04In{}
+	if r.Chance(1, 12) {
+		// two streams onto one path at the same time (memory backends): the file ends as
+		// exactly one of the two contents, and a reader sees exactly what is stored
+		in.Shape = 2
+		in.Backend = []string{"mem", "cache-mem"}[r.Intn(2)]
+		in.Data = genContent(r, "ONE:")
+		in.Prior = genContent(r, "TWO:") + "-second-writer"
+		for k := r.Intn(4); k > 0; k-- {
+			in.Chunks = append(in.Chunks, r.Pick(1, 3, 16, 500))
+		}
+		return in
+	}
 	if r.Chance(2, 5) {
 		in.Shape = 0
 		in.Backend = backendKinds[r.Intn(len(backendKinds))]
@@ -337,6 +350,9 @@ func c04Run(inI interface{}, env *Env) *Failure {
 	if in.Shape == 0 {
 		return c04Stream(in, env)
 	}
+	if in.Shape == 2 {
+		return c04TwoWriters(in, env)
+	}
 	mark := env.Mark()
 	dry := c04Copy(in, env, nil)
 	seg := env.Segment(mark)
@@ -514,4 +530,66 @@ func init() {
 		Stub:        []string{"FaultFS wrappers", "sync primitives, scheduler, clock (simrt)", "crypto/rand nonces are real (no oracle depends on their value)"},
 		Assumptions: []string{"under a fault the only clause judged is: helper returned nil => the destination is a complete byte-exact copy (never the converse)", "disk-level faults below diskfs are not injected (no seam there); faults enter through the Filespace/Reader/Writer interfaces"},
 	})
+}
+
+
+// c04TwoWriters: two tasks stream different contents onto one path of a memory-backed
+// filespace at once (a memfs stream owns its file until Close, the second waits); a third
+// reads. The file must end as exactly one of the two contents, a successful read must return
+// exactly one of: nothing yet written (the initial content), content one, content two.
+func c04TwoWriters(in *c04In, env *Env) *Failure {
+	var post *Failure
+	initial := "initial-content"
+	one, two := in.Data, in.Prior
+	res := env.Sim(SimOpts{MaxSteps: 60000, FairSteps: 30000}, func() {
+		b := newBackend(in.Backend, &FaultState{FailAt: map[int]string{}}, false)
+		defer b.cleanup()
+		path := "dir/file"
+		if err := b.clean.MkdirAll("dir", filesystem.DefaultUnixDirMode); err != nil {
+			panic(harnessTrouble{"mkdir: " + err.Error()})
+		}
+		if err := b.clean.WriteFile(path, []byte(initial), filesystem.DefaultUnixFileMode); err != nil {
+			panic(harnessTrouble{"initial: " + err.Error()})
+		}
+		var wg simrt.WaitGroup
+		wg.Add(3)
+		for i, content := range []string{one, two} {
+			i, content := i, content
+			simrt.GoNamed(fmt.Sprintf("writer%d", i), func() {
+				defer wg.Done()
+				if r := RunFsOp(b.clean, FsOp{Kind: "Writer", Path: path, Data: content, Chunks: in.Chunks}); (r.Err != nil || r.Panic != "") && post == nil {
+					post = failf("C04/stream-write-refused", in.Backend+"/two-writers", "writer %d: err=%v panic=%s", i, r.Err, r.Panic)
+				}
+			})
+		}
+		simrt.GoNamed("reader", func() {
+			defer wg.Done()
+			for k := 0; k < 2; k++ {
+				r := RunFsOp(b.clean, FsOp{Kind: []string{"Reader", "ReadFile"}[k], Path: path, Chunks: []int{3, 64}})
+				if r.Panic != "" && post == nil {
+					post = failf("C04/panic", in.Backend+"/two-writers", "reading while two writers stream: %s", r.Panic)
+				}
+				if got := string(r.Data); r.Err == nil && r.Panic == "" && got != initial && got != one && got != two && post == nil {
+					post = failf("C04/stream-not-exact", in.Backend+"/two-writers/read", "a reader returned %s while two writers streamed %s and %s onto the path: none of the contents ever stored", short(got), short(one), short(two))
+				}
+				simrt.Yield()
+			}
+		})
+		wg.Wait()
+		if post != nil {
+			return
+		}
+		got, err := b.clean.ReadFile(path)
+		if err != nil {
+			post = failf("C04/stream-not-exact", in.Backend+"/two-writers", "the file cannot be read after both writers closed: %v", err)
+			return
+		}
+		if g := string(got); g != one && g != two {
+			post = failf("C04/stream-not-exact", in.Backend+"/two-writers", "two writers streamed %s and %s onto one path; the file holds %s, neither of them", short(one), short(two), short(g))
+		}
+	})
+	if f := env.SimFailure("C04", res); f != nil {
+		return f
+	}
+	return post
 }
